@@ -129,6 +129,18 @@ check("C13", "exploration",
       "Trusted: degree-4 exact rule (Dunavant) applied to basis functions evaluated through the public path (validated by C09).",
       "exhaustive sweep (space pair x order x unit vector) against exact L2 quantities")
 
+check("C04", "exploration",
+      "Exhaustive sweep: mesh x operator (one real and one complex kernel for each of the regular/singular assembler functions: "
+      "default scalar, three hypersingular, two Maxwell; both sparse kernels) x independently chosen test and trial space variants "
+      "sharing the local basis (whole grid, a segment, its complement, alternating elements; all P1/RWG/SNC option combinations) x "
+      "order pairs: A_S must equal T_test' A_D T_trial with A_D on the full-grid element-wise space and T = map_to_full_grid, and "
+      "for DP spaces literally the sub-block. Refinement: uniform, twice uniform and barycentric refinement with geometric "
+      "prolongation along an order ladder.",
+      "DESIGN.md 4/C04",
+      "Trusted: map_to_full_grid as the coefficient map (its structure is validated through C09's function evaluation); QUAD-class "
+      "thresholds for the refinement part (1e-5 at the top of the ladder, must at least halve from the bottom).",
+      "exhaustive sweep (operator x test variant x trial variant) against the congruence identity")
+
 ALL = ["C%02d" % i for i in range(1, 21)]
 
 
